@@ -618,5 +618,250 @@ theorem table_roundtrip (rows : List (List (Option Instr))) (S C : Nat)
   exact ⟨fromChars_tableText rows hne hr1, get_parsed rows,
     showChars_of_get _ rows S C hlen hr2 (get_parsed rows)⟩
 
+/-! ### strictly sorted association lists (the BTreeMap invariant) -/
+
+/-- keys strictly increasing in the lexicographic order -/
+abbrev Sorted (p : Prog) : Prop := List.Pairwise (fun a b => slotLt a.1 b.1 = true) p
+
+theorem slotLt_iff (a b : Slot) :
+    slotLt a b = true ↔ a.1 < b.1 ∨ (a.1 = b.1 ∧ a.2 < b.2) := by
+  simp [slotLt]
+
+theorem slotLt_trans {a b c : Slot} (h1 : slotLt a b = true) (h2 : slotLt b c = true) :
+    slotLt a c = true := by
+  simp only [slotLt_iff] at *
+  omega
+
+theorem slotLt_irrefl (a : Slot) : ¬ slotLt a a = true := by
+  simp only [slotLt_iff]
+  omega
+
+theorem slotLt_tri (a b : Slot) : slotLt a b = true ∨ a = b ∨ slotLt b a = true := by
+  rcases a with ⟨a1, a2⟩
+  rcases b with ⟨b1, b2⟩
+  simp only [slotLt_iff, Prod.mk.injEq]
+  omega
+
+theorem mem_insert {p : Prog} {s : Slot} {i : Instr} {b : Slot × Instr}
+    (h : b ∈ p.insert s i) : b = (s, i) ∨ b ∈ p := by
+  induction p with
+  | nil => simpa [Prog.insert] using h
+  | cons kv rest ih =>
+    rcases kv with ⟨k, v⟩
+    simp only [Prog.insert] at h
+    split at h
+    · rcases List.mem_cons.1 h with e | hm
+      · exact Or.inl e
+      · exact Or.inr (List.mem_cons_of_mem _ hm)
+    · split at h
+      · rcases List.mem_cons.1 h with e | hm
+        · exact Or.inl e
+        · exact Or.inr hm
+      · rcases List.mem_cons.1 h with e | hm
+        · exact Or.inr (e ▸ List.mem_cons_self ..)
+        · rcases ih hm with e | hm'
+          · exact Or.inl e
+          · exact Or.inr (List.mem_cons_of_mem _ hm')
+
+theorem sorted_insert (p : Prog) (s : Slot) (i : Instr) (hp : Sorted p) :
+    Sorted (p.insert s i) := by
+  induction p with
+  | nil => simp [Prog.insert, Sorted]
+  | cons kv rest ih =>
+    rcases kv with ⟨k, v⟩
+    have hp1 := List.pairwise_cons.1 hp
+    simp only [Prog.insert]
+    split
+    · rename_i h1
+      have hk : k = s := slot_of_beq h1
+      subst hk
+      exact List.pairwise_cons.2 ⟨hp1.1, hp1.2⟩
+    · split
+      · rename_i _ h2
+        refine List.pairwise_cons.2 ⟨?_, hp⟩
+        intro b hb
+        rcases List.mem_cons.1 hb with e | hm
+        · rw [e]; exact h2
+        · exact slotLt_trans h2 (hp1.1 b hm)
+      · rename_i h1 h2
+        have hks : slotLt k s = true := by
+          rcases slotLt_tri k s with h | h | h
+          · exact h
+          · subst h; simp at h1
+          · exact absurd h h2
+        refine List.pairwise_cons.2 ⟨?_, ih hp1.2⟩
+        intro b hb
+        rcases mem_insert hb with e | hm
+        · rw [e]; exact hks
+        · exact hp1.1 b hm
+
+theorem get_some_mem {p : Prog} {s : Slot} {v : Instr} (h : p.get s = some v) : (s, v) ∈ p := by
+  induction p with
+  | nil => simp [Prog.get] at h
+  | cons kv rest ih =>
+    rcases kv with ⟨k, w⟩
+    simp only [Prog.get] at h
+    split at h
+    · rename_i h1
+      have hk : k = s := slot_of_beq h1
+      injection h with hv
+      rw [hk, hv]
+      exact List.mem_cons_self ..
+    · exact List.mem_cons_of_mem _ (ih h)
+
+theorem get_none_of_forall_ne {p : Prog} {s : Slot} (h : ∀ kv ∈ p, kv.1 ≠ s) : p.get s = none := by
+  rcases hg : p.get s with _ | v
+  · rfl
+  · exact absurd rfl (h _ (get_some_mem hg))
+
+theorem get_none_of_all_gt {p : Prog} {s : Slot} (h : ∀ kv ∈ p, slotLt s kv.1 = true) :
+    p.get s = none := by
+  apply get_none_of_forall_ne
+  intro kv hkv e
+  have := h kv hkv
+  rw [e] at this
+  exact slotLt_irrefl s this
+
+theorem get_head (k : Slot) (v : Instr) (rest : Prog) : Prog.get ((k, v) :: rest) k = some v := by
+  simp [Prog.get]
+
+theorem get_cons_ne {k s : Slot} (v : Instr) (rest : Prog) (h : k ≠ s) :
+    Prog.get ((k, v) :: rest) s = Prog.get rest s := by
+  simp only [Prog.get, slot_beq_false h, Bool.false_eq_true, if_false]
+
+/-- two strictly sorted association lists with the same lookups are the same list -/
+theorem sorted_ext (p q : Prog) (hp : Sorted p) (hq : Sorted q)
+    (h : ∀ s, p.get s = q.get s) : p = q := by
+  induction p generalizing q with
+  | nil =>
+    rcases q with _ | ⟨⟨k, v⟩, q'⟩
+    · rfl
+    · have := h k
+      rw [get_head] at this
+      simp [Prog.get] at this
+  | cons kv p' ih =>
+    rcases kv with ⟨k, v⟩
+    rcases q with _ | ⟨⟨k', v'⟩, q'⟩
+    · have := h k
+      rw [get_head] at this
+      simp [Prog.get] at this
+    · have hp1 := List.pairwise_cons.1 hp
+      have hq1 := List.pairwise_cons.1 hq
+      have hk : k = k' := by
+        rcases slotLt_tri k k' with hlt | he | hgt
+        · have hn : Prog.get ((k', v') :: q') k = none := by
+            apply get_none_of_all_gt
+            intro kv hkv
+            rcases List.mem_cons.1 hkv with e | hm
+            · rw [e]; exact hlt
+            · exact slotLt_trans hlt (hq1.1 kv hm)
+          have h2 := h k
+          rw [get_head, hn] at h2
+          cases h2
+        · exact he
+        · have hn : Prog.get ((k, v) :: p') k' = none := by
+            apply get_none_of_all_gt
+            intro kv hkv
+            rcases List.mem_cons.1 hkv with e | hm
+            · rw [e]; exact hgt
+            · exact slotLt_trans hgt (hp1.1 kv hm)
+          have h2 := h k'
+          rw [get_head, hn] at h2
+          cases h2
+      subst hk
+      have hv : v = v' := by
+        have := h k
+        rw [get_head, get_head] at this
+        injection this
+      subst hv
+      congr 1
+      apply ih q' hp1.2 hq1.2
+      intro s
+      by_cases hs : k = s
+      · subst hs
+        rw [get_none_of_all_gt hp1.1, get_none_of_all_gt hq1.1]
+      · have := h s
+        rwa [get_cons_ne _ _ hs, get_cons_ne _ _ hs] at this
+
+theorem sorted_insertRow (st : Nat) (r : List (Option Instr)) (co : Nat) (acc : Prog)
+    (h : Sorted acc) : Sorted (insertRow st r co acc) := by
+  induction r generalizing co acc with
+  | nil => exact h
+  | cons x r ih =>
+    rcases x with _ | v
+    · exact ih _ _ h
+    · exact ih _ _ (sorted_insert _ _ _ h)
+
+/-- `parseRows` builds a strictly sorted list -/
+theorem sorted_insertRows (rows : List (List (Option Instr))) (st : Nat) (acc : Prog)
+    (h : Sorted acc) : Sorted (insertRows rows st acc) := by
+  induction rows generalizing st acc with
+  | nil => exact h
+  | cons r rs ih => exact ih _ _ (sorted_insertRow _ _ _ _ h)
+
+/-! ### the table of a compiled program -/
+
+/-- the `S × C` table a program holds -/
+def rowsOf (p : Prog) (S C : Nat) : List (List (Option Instr)) :=
+  (List.range S).map fun i => (List.range C).map fun j => p.get (i, j)
+
+theorem rowsOf_getD (p : Prog) (S C : Nat) (hin : ∀ kv ∈ p, kv.1.1 < S ∧ kv.1.2 < C)
+    (i j : Nat) : ((rowsOf p S C).getD i []).getD j none = p.get (i, j) := by
+  by_cases hij : i < S ∧ j < C
+  · simp [rowsOf, List.getD_eq_getElem?_getD, hij.1, hij.2]
+  · have hn : p.get (i, j) = none := by
+      apply get_none_of_forall_ne
+      intro kv hkv e
+      have := hin kv hkv
+      rw [e] at this
+      exact hij this
+    rw [hn]
+    by_cases hi : i < S
+    · have hj : ¬ j < C := fun hj => hij ⟨hi, hj⟩
+      simp [rowsOf, List.getD_eq_getElem?_getD, hi, hj]
+    · simp [rowsOf, List.getD_eq_getElem?_getD, hi]
+
+/-- **print-then-parse on an arbitrary compiled table**: a strictly sorted association list with
+    keys inside the `S × C` rectangle and printable entries is printed (with that size) to a text
+    that parses back to the very same list. No bound on `S`, `C` is needed: keys are never printed,
+    they only index rows and columns. -/
+theorem prog_roundtrip (p : Prog) (S C : Nat) (ok : Option Instr → Prop)
+    (hok : ∀ c, ok c → GoodCell c) (hS : 0 < S) (hC : 0 < C)
+    (h : List.Pairwise (fun a b => slotLt a.1 b.1 = true) p ∧
+      ∀ kv ∈ p, kv.1.1 < S ∧ kv.1.2 < C ∧ ok (some kv.2)) :
+    ∃ s, p.showChars (some (S, C)) = .ok s ∧ Prog.fromChars s = .ok p := by
+  obtain ⟨hsorted, hkv⟩ := h
+  have hin : ∀ kv ∈ p, kv.1.1 < S ∧ kv.1.2 < C := fun kv hm => ⟨(hkv kv hm).1, (hkv kv hm).2.1⟩
+  have hget := rowsOf_getD p S C hin
+  have hgoodget : ∀ s, GoodCell (p.get s) := by
+    intro s
+    rcases hg : p.get s with _ | v
+    · trivial
+    · exact hok _ (hkv _ (get_some_mem hg)).2.2
+  have hlen : (rowsOf p S C).length = S := by simp [rowsOf]
+  have hrows : ∀ r ∈ rowsOf p S C, r.length = C ∧ ∀ c ∈ r, GoodCell c := by
+    intro r hr
+    obtain ⟨i, _, rfl⟩ := List.mem_map.1 hr
+    refine ⟨by simp, ?_⟩
+    intro c hc
+    obtain ⟨j, _, rfl⟩ := List.mem_map.1 hc
+    exact hgoodget _
+  have hne : rowsOf p S C ≠ [] := by
+    intro e; rw [e] at hlen; simp at hlen; omega
+  have hrows' : ∀ r ∈ rowsOf p S C, r ≠ [] ∧ ∀ c ∈ r, GoodCell c := by
+    intro r hr
+    refine ⟨?_, (hrows r hr).2⟩
+    intro e
+    have := (hrows r hr).1
+    rw [e] at this; simp at this; omega
+  refine ⟨tableText (rowsOf p S C),
+    showChars_of_get p _ S C hlen hrows (fun i j => (hget i j).symm), ?_⟩
+  rw [fromChars_tableText _ hne hrows']
+  congr 1
+  apply sorted_ext _ _ (sorted_insertRows _ _ _ List.Pairwise.nil) hsorted
+  intro s
+  rcases s with ⟨i, j⟩
+  rw [get_parsed, hget]
+
 end Parse
 end BB
